@@ -103,11 +103,18 @@ def akai_sample_expected(s: GA.SampleFile) -> dict:
     return exp
 
 
-def akai_round(rep: Report, ctx, rng, cases, tag):
+def akai_round(rep: Report, ctx, rng, cases, tag, layouts=None):
     names = rng.sample(["KICK", "SNARE", "PAD", "BASS", "LEAD", "STR", "ORGAN", "TOM 1", "FX.1"], rng.randint(1, 4))
     files = [akai_sample(rng, n) for n in names]
     progs = []
-    for pn in rng.sample(GP.PROG_NAMES, rng.randint(1, 2)):
+    if layouts:
+        # targeted: one program per requested chain layout, with at least two links
+        for pn, lay in zip(GP.PROG_NAMES, layouts):
+            pr = GP.random_program(rng, pn, nkg=rng.choice([2, 3, 4]), layout=lay)
+            progs.append(pr)
+            files.append(pr)
+            rep.feat("akai_program_chain_" + lay)
+    for pn in ([] if layouts else rng.sample(GP.PROG_NAMES, rng.randint(1, 2))):
         pr = GP.random_program(rng, pn)
         progs.append(pr)
         files.append(pr)
@@ -264,13 +271,15 @@ def run(ctx, rep: Report, deep: bool = False):
     rng = ctx.rng
     rep.rule = (
         "generated images in which every header field carries its own random in-range value: AKAI samples (names, type, rate incl. 0, counts, markers, tuning bytes, loop mode, 0-8 loop entries), "
-        "AKAI programs (every header field; 1-5 keygroups at standard, gapped, shuffled or sequential addresses with a stray next-address on the last; 0-4 non-empty velocity zones in leading or scattered slots), "
+        "AKAI programs (every header field; 1-5 keygroups at standard, gapped, shuffled, backward-linked, zigzag or sequential addresses with a stray next-address on the last, plus targeted images with one program per chain layout; 0-4 non-empty velocity zones in leading or scattered slots), "
         "Roland samples (mode, frequency code, loop mode, five 24-bit addresses with their fine bytes), CDDA tracks; `ls <item>` parsed back into key/value pairs and compared with the stored values; "
         "the same listings compared line by line with the Lean model (AKAI, Roland, CDDA); distinct = (image, item); non-trivial = every item"
     )
     cases = []
     for i in range(ctx.n(8, 120)):
         akai_round(rep, ctx, rng, cases, f"akai{i}")
+    for i in range(ctx.n(2, 12)):
+        akai_round(rep, ctx, rng, cases, f"akai-chain{i}", layouts=["backward", "zigzag", "shuffled", "gaps"])
     for i in range(ctx.n(2, 20)):
         roland_round(rep, ctx, rng, cases, f"roland{i}")
     for i in range(ctx.n(6, 60)):
@@ -286,7 +295,7 @@ def run(ctx, rep: Report, deep: bool = False):
         rep.families["ls-e2e"] = {"cases": len(cases), "disagreements": bad}
         if cases:
             rep.sample({"family": "ls-e2e", "op": cases[0].op, "result": cases[0].impl[:300]})
-    rep.required_features = ["akai_samples", "akai_programs", "akai_keygroups", "akai_active_loops", "roland_samples", "cdda_tracks", "akai_program_layout_custom-addresses"]
+    rep.required_features = ["akai_samples", "akai_programs", "akai_keygroups", "akai_active_loops", "roland_samples", "cdda_tracks", "akai_program_layout_custom-addresses", "akai_program_chain_backward", "akai_program_chain_zigzag"]
 
 
 def search(ctx, rep: Report):
